@@ -117,6 +117,60 @@ def explore1(ctx, name, arg, text, hist, d):
     return None, steps
 
 
+def raising_helper_probe(ctx):
+    """a helper program that cannot be started, or whose report cannot be parsed, makes the pass method raise: even then
+    no scratch file may stay next to the test case (the candidate's private directory holds the test cases only)"""
+    probes = []
+    for name, arg, key in (('clex', 'rm-toks-1', 'clex'), ('clang', 'remove-unused-function', 'clang_delta'),
+                           ('clangbinarysearch', 'remove-unused-function', 'clang_delta'), ('lines', '0', 'topformflat'), ('lines', '3', 'topformflat')):
+        for tool in ('/nonexistent/helper', '/etc/hostname'):       # cannot be found / cannot be executed
+            probes.append((name, arg, key, tool, None))
+    probes.append(('clangbinarysearch', 'remove-unused-function', 'clang_delta', str(STAND / 'failing_helper'),
+                   {'mode': 'stdout', 'text': 'Available transformation instances: many\n', 'code': 0}))
+    # the helper works, but the sanity check that LinesPass.new runs on the reformatted file fails with an operating-system
+    # error (disk full while copying) or is interrupted
+    for exc in (OSError(28, 'No space left on device'), KeyboardInterrupt()):
+        probes.append(('lines', '0', 'topformflat', str(STAND / 'topformflat'), {'sanity_raises': exc}))
+        probes.append(('lines', '2', 'topformflat', str(STAND / 'topformflat'), {'sanity_raises': exc}))
+    for name, arg, key, tool, hs in probes:
+        d = Path(tempfile.mkdtemp(prefix='rh-', dir=ctx.scratch))
+        try:
+            sanity_exc = (hs or {}).get('sanity_raises')
+            if hs is not None and sanity_exc is None:
+                (d / 'hs.json').write_text(json.dumps(hs))
+                os.environ['HELPER_SCEN'] = str(d / 'hs.json')
+            wd = d / 'w'
+            wd.mkdir()
+            f = wd / 'a.c'
+            f.write_text(TOOL_TEXT)
+            ext = dict(EXT)
+            ext[key] = tool
+            p = CVise.pass_name_mapping[name](arg, ext)
+            p.max_transforms = None
+            p.user_clang_delta_std = 'c++17'
+            p.clang_delta_preserve_routine = None
+            raised = None
+            def sanity():
+                if sanity_exc is not None:
+                    raise sanity_exc
+            try:
+                st = p.new(str(f), sanity if name == 'lines' else None)
+                if st is not None:
+                    p.transform(str(f), st, ProcessEventNotifier(None))
+            except (Exception, KeyboardInterrupt) as e:  # noqa
+                raised = type(e).__name__
+            ctx.count()
+            left = sorted(x.name for x in wd.iterdir() if x.name != 'a.c')
+            if left:
+                ctx.report(f'scratch-file-left-when-the-helper-cannot-run:{name}', f'{name}::{arg} with helper {tool}: raised {raised}, left {left} next to the test case',
+                           {'kind': 'raising-helper', 'pass': name, 'arg': arg})
+            if raised:
+                ctx.nontrivial(('raising-helper', name, arg, tool))
+        finally:
+            os.environ.pop('HELPER_SCEN', None)
+            shutil.rmtree(d, ignore_errors=True)
+
+
 def sibling_probe(ctx, name, arg, text, d, other=None):
     """candidates are a function of (content, cursor, configuration): a pass object that has just worked on one file must
     treat another file of the same base name, size and time stamp exactly as a fresh pass object does"""
@@ -272,6 +326,10 @@ def run(ctx):
     logging.getLogger().setLevel(logging.CRITICAL)
     if ctx.replay:
         o = json.load(open(ctx.replay))
+        if o.get('kind') == 'raising-helper':
+            raising_helper_probe(ctx)
+            print('replayed ->', 'fails' if ctx.violations else 'holds')
+            return 1 if ctx.violations else 0
         d = Path(tempfile.mkdtemp(prefix='c11-', dir=ctx.scratch))
         try:
             if o['hist'] == 'fresh-process-probe':
@@ -288,6 +346,7 @@ def run(ctx):
             ctx.report(sig, 'replayed', o)
         return 1 if ctx.violations else 0
     ctx.lean_gate(OBLIGATIONS)
+    raising_helper_probe(ctx)
     per = {}
     sib = None
     fresh_budget = [30 if ctx.tier == 'quick' else 300]
